@@ -126,27 +126,43 @@ Proof.
     exists (i, None); auto.
 Qed.
 
+Lemma rollback_not_ok r v i s1 s' : rollback r v i s1 <> (s', ORes (Ok tt)).
+Proof.
+  unfold rollback. destruct (sget i (slots_of v s1)) as [[r'|]|]; try congruence.
+  destruct (r' =? r)%N; [|congruence]. destruct (vol_usage v (-1) _); congruence.
+Qed.
+
 Lemma store_placement r loc ok s s' :
+  inv s ->
   step s (Store r loc ok) = (s', ORes (Ok tt)) -> vfind r (vols s) = None ->
   exists v i vl, loc = Some (v, i) /\ ok = true /\
     vget v (vols s) = Some vl /\ vavail vl = true /\ vro vl = false /\
     sget i (vslots vl) = Some None /\ slot_at s' v i = Some (Some r).
 Proof.
-  cbn [step]. unfold store. intros H F. rewrite F in H.
-  destruct (has_free s); cbn [negb] in H; [|destruct loc; discriminate].
-  destruct loc as [[v i]|]; [|discriminate].
-  destruct (valid_free s v i) eqn:V; cbn [negb] in H; [|discriminate].
-  apply valid_free_slot in V as [vl [G [W S]]].
-  unfold writable in W. apply Bool.andb_true_iff in W as [W1 W2]. apply Bool.negb_true_iff in W2.
-  destruct (vol_usage v 1 (set_slot v i (Some r) (add_known r s))) as [s1| |] eqn:U; try discriminate.
-  destruct ok.
-  2:{ destruct (vol_usage v (-1) (set_slot v i None s1)); discriminate. }
-  injection H as <-.
-  apply usage_set_slot in U as [vl' [G' [_ [Hv _]]]].
-  rewrite add_known_vols in G', Hv. rewrite G in G'; injection G' as <-.
-  exists v, i, vl; repeat split; auto.
-  unfold slot_at. rewrite Hv, (vget_vupd_same v _ _ vl); [|reflexivity|exact G].
-  cbn. eapply sget_sset_same; eauto.
+  intros I. cbn [step]. unfold store. intros H F.
+  destruct (reserve r loc s) as [| |s1 v i|o|] eqn:R.
+  - unfold reserve in R. rewrite F in R. destruct (has_free s); cbn [negb] in R.
+    + destruct loc as [[? ?]|]; [|discriminate]. destruct (valid_free s n n0); cbn [negb] in R; [|discriminate].
+      destruct (vol_usage _ _ _); discriminate.
+    + destruct loc; discriminate.
+  - discriminate.
+  - destruct (reserve_placed r loc s s1 v i I R) as [_ [_ [-> [V [vl [G [S Hv]]]]]]].
+    destruct ok; [|exfalso; eapply rollback_not_ok; eauto]. injection H as <-.
+    apply valid_free_slot in V as [vl' [G' [W _]]]. rewrite G in G'; injection G' as <-.
+    unfold writable in W. apply Bool.andb_true_iff in W as [W1 W2]. apply Bool.negb_true_iff in W2.
+    exists v, i, vl; repeat split; auto.
+    unfold slot_at. rewrite Hv, (vget_vupd_same v _ _ vl); [|reflexivity|exact G].
+    cbn. eapply sget_sset_same; eauto.
+  - unfold reserve in R. rewrite F in R. destruct (has_free s); cbn [negb] in R; [|destruct loc; discriminate].
+    destruct loc as [[? ?]|]; [|discriminate]. destruct (valid_free s n n0); cbn [negb] in R; [|discriminate].
+    destruct (vol_usage _ _ _); try discriminate; injection R as <-; discriminate.
+  - discriminate.
+Qed.
+
+Lemma rollback_not_full r v i s1 : snd (rollback r v i s1) <> ORes (Err ENotEnoughStorage).
+Proof.
+  unfold rollback. destruct (sget i (slots_of v s1)) as [[r'|]|]; cbn; try congruence.
+  destruct (r' =? r)%N; cbn; [|congruence]. destruct (vol_usage v (-1) _); cbn; congruence.
 Qed.
 
 Lemma store_not_enough_iff r loc ok s :
@@ -154,7 +170,7 @@ Lemma store_not_enough_iff r loc ok s :
   (snd (step s (Store r loc ok)) = ORes (Err ENotEnoughStorage) <->
    vfind r (vols s) = None /\ has_free s = false).
 Proof.
-  cbn [step]. unfold store.
+  cbn [step]. unfold store, reserve.
   destruct (vfind r (vols s)) as [[v0 j0]|] eqn:F.
   { destruct loc; cbn; intros H; split; try discriminate; intros [? ?]; discriminate. }
   destruct (has_free s) eqn:HF; cbn [negb].
@@ -164,7 +180,7 @@ Proof.
   intros _. split; [|intros [_ ?]; discriminate].
   destruct (vol_usage v 1 _) as [s1| |]; cbn; try discriminate.
   destruct ok; cbn; try discriminate.
-  destruct (vol_usage v (-1) _); cbn; discriminate.
+  intros H. exfalso. eapply rollback_not_full; eauto.
 Qed.
 
 Lemma gsum_vused_nonneg s : inv s -> 0 <= gsum vused (vols s).
@@ -179,7 +195,7 @@ Lemma store_ok_if r v i s :
   inv s -> vfind r (vols s) = None -> valid_free s v i = true ->
   snd (step s (Store r (Some (v, i)) true)) = ORes (Ok tt).
 Proof.
-  intros I F V. cbn [step]. unfold store. rewrite F.
+  intros I F V. cbn [step]. unfold store, reserve. rewrite F.
   assert (HF : has_free s = true).
   { apply valid_free_slot in V as [vl [G [W S]]]. unfold has_free. apply existsb_exists.
     exists vl; split; [now apply (vget_in v _ vl)|]. rewrite W. cbn. unfold has_empty.
@@ -279,7 +295,7 @@ Qed.
 Lemma prune_ok s : inv s ->
   exists m, prune true s = Ok (with_mets (with_vols s (map (pvol (refd s)) (vols s))) m).
 Proof.
-  intros I. unfold prune. cbn [negb].
+  intros I. unfold prune, prune_with. cbn [negb].
   destruct (prune_vols_total (refd s) (vols s) (inv_vol s I)) as [n [P Hn]].
   rewrite P. cbn [bind]. unfold stat_inc. rewrite (inv_phys s I).
   destruct (- n =? 0); cbn [bind]; [eexists; reflexivity|].
@@ -387,17 +403,40 @@ Qed.
 
 Definition loss_op (o : op) : bool :=
   match o with RemoveSector _ | RemoveVol _ _ => true | _ => false end.
+(* operations that contain no sector removal *)
+Definition quiet_op (o : op) : bool :=
+  match o with RemoveSector _ | RemoveVol _ _ | StoreRemoved _ _ => false | _ => true end.
 
-Lemma lost_unchanged s o : loss_op o = false -> mLost (mets (fst (step s o))) = mLost (mets s).
+Lemma reserve_lost r loc s s1 v i : reserve r loc s = RPlaced s1 v i -> mLost (mets s1) = mLost (mets s).
 Proof.
-  destruct o; cbn [loss_op]; try discriminate; intros _; cbn [step].
+  unfold reserve. repeat break; try discriminate. intros [= <- <- <-].
+  match goal with H : vol_usage _ _ _ = Ok _ |- _ => apply usage_set_slot in H as [? [_ [_ [_ [Hm _]]]]] end.
+  rewrite Hm, add_known_mets. reflexivity.
+Qed.
+
+Lemma rollback_lost r v i s1 : mLost (mets (fst (rollback r v i s1))) = mLost (mets s1).
+Proof.
+  unfold rollback. repeat break; cbn [fst]; try reflexivity.
+  match goal with H : vol_usage _ _ _ = Ok _ |- _ => apply usage_set_slot in H as [? [_ [_ [_ [Hm _]]]]] end.
+  rewrite Hm. reflexivity.
+Qed.
+
+Lemma store_lost r loc ok s : mLost (mets (fst (store r loc ok s))) = mLost (mets s).
+Proof.
+  unfold store. destruct (reserve r loc s) as [| |s1 v i|o|] eqn:R; cbn [fst]; try reflexivity.
+  - now rewrite add_known_mets.
+  - apply reserve_lost in R. destruct ok; cbn [fst]; [exact R|]. now rewrite rollback_lost.
+Qed.
+
+Lemma lost_unchanged s o : quiet_op o = true -> mLost (mets (fst (step s o))) = mLost (mets s).
+Proof.
+  destruct o; cbn [quiet_op]; try discriminate; intros _; cbn [step].
   all: try reflexivity.
   all: try apply migrate_lost.
   - unfold add_vol, fin, bind. repeat break; reflexivity.
   - unfold grow, stat_inc, fin, bind. repeat break; reflexivity.
   - unfold shrink, stat_inc, fin, bind. repeat break; reflexivity.
-  - unfold store, add_known, vol_usage, stat_inc, set_slot, fin, bind. repeat break; cbn in *; try congruence; try reflexivity.
-    all: repeat match goal with H : Ok _ = Ok _ |- _ => injection H as <- end; try reflexivity.
+  - apply store_lost.
   - unfold add_temps, stat_inc, fin, bind. repeat break; reflexivity.
   - unfold add_temp1, stat_inc, fin, bind. repeat break; reflexivity.
   - unfold expire_temp, stat_inc, fin, bind. repeat break; reflexivity.
@@ -407,7 +446,7 @@ Proof.
   - unfold renew, fin, bind. repeat break; reflexivity.
   - unfold expire_cons. set (l' := map _ (cons s)). unfold stat_inc, fin, bind. repeat break; reflexivity.
   - unfold expire_cons. set (l' := map _ (cons s)). unfold stat_inc, fin, bind. repeat break; reflexivity.
-  - unfold prune, stat_inc, fin, bind. repeat break; reflexivity.
+  - unfold prune, prune_with, stat_inc, fin, bind. repeat break; reflexivity.
   - unfold drop_root, stat_inc, fin, bind. repeat break; reflexivity.
   - unfold drop_temp, stat_inc, fin, bind. repeat break; reflexivity.
   - unfold prune_one, vol_usage, stat_inc, set_slot, fin, bind. repeat break; reflexivity.
@@ -433,4 +472,21 @@ Proof.
     destruct (stat_inc (mLost (mets s1)) 1) as [lo| |] eqn:S2; cbn [bind fin fst]; try lia.
     apply stat_inc_ok in S2. apply usage_set_slot in U as [? [_ [_ [_ [Hm _]]]]].
     cbn. rewrite S2, Hm. cbn. lia.
+Qed.
+
+(* the racing RemoveSector inside a failing write is counted like any explicit removal *)
+Lemma store_removed_lost r loc s :
+  snd (step s (StoreRemoved r loc)) <> OBad ->
+  mLost (mets (fst (step s (StoreRemoved r loc)))) = mLost (mets s) + 1.
+Proof.
+  cbn [step]. unfold store_removed.
+  destruct (reserve r loc s) as [| |s1 v i|o|] eqn:R; cbn [snd]; try congruence.
+  destruct (remove_sector r s1) as [s2| |] eqn:M; cbn [snd]; try congruence. intros _.
+  rewrite rollback_lost. apply reserve_lost in R. rewrite <- R.
+  unfold remove_sector in M. destruct (negb _); [discriminate|].
+  destruct (vfind r (vols s1)) as [[v' j]|]; [|discriminate].
+  destruct (vol_usage v' (-1) _) as [sa| |] eqn:U; cbn [bind] in M; try discriminate.
+  destruct (stat_inc (mLost (mets sa)) 1) as [lo| |] eqn:S2; cbn [bind] in M; try discriminate.
+  injection M as <-. apply stat_inc_ok in S2. apply usage_set_slot in U as [? [_ [_ [_ [Hm _]]]]].
+  cbn. rewrite S2, Hm. reflexivity.
 Qed.
